@@ -946,6 +946,12 @@ class Noise(EnvironmentFilter):
                 noisy_actions = [ self._noises(a, rng, self._action_noise) for a in actions ]
                 new['actions'] = noisy_actions
 
+                if self._action_noise and 'action' in new and new['action'] in actions:
+                    new['action'] = noisy_actions[actions.index(new['action'])] #the logged action gets its action's noise
+
+                if self._action_noise and callable(new.get('feedbacks')):
+                    new['feedbacks'] = DiscreteReward(noisy_actions, list(map(new['feedbacks'],actions)))
+
             if 'rewards' in new:
                 rewards = new['rewards']
                 if is_callable: rewards = map(rewards,actions)
